@@ -316,6 +316,41 @@ Section Machine.
 End Machine.
 
 (* ---------------------------------------------------------------------------------------------- *)
+(* several configurations of one schema, the process environment changing between constructions:
+   every construction reads os.environ as it is then; nothing of an earlier construction (variable text,
+   validated value) is kept on the field or the schema *)
+Inductive gop :=
+| GBuild (environ : list (str * str))    (* os.environ becomes this map; cfg = schema() *)
+| GOp (o : eop).                         (* an operation on the current configuration, same environment *)
+
+Definition gstate := (list (str * str) * fstate)%type.
+
+Section Global.
+  Variable validate : pyval -> res pyval.
+  Variable to_py : pyval -> res pyval.
+  Variable dflt : pyval.
+  Variable lookup : bool.
+  Variable name : envset.
+  Variable path : str.
+
+  Definition gstep (g : gstate) (o : gop) : gstate * res unit :=
+    match o with
+    | GBuild e => let '(s1, r) := estep validate to_py dflt lookup name e path (snd g) OBuild in ((e, s1), r)
+    | GOp o => let '(s1, r) := estep validate to_py dflt lookup name (fst g) path (snd g) o in ((fst g, s1), r)
+    end.
+
+  Definition grun (g : gstate) (ops : list gop) : gstate :=
+    fold_left (fun g o => fst (gstep g o)) ops g.
+
+  (* per step: the operation, the state after it, the outcome *)
+  Fixpoint gtrace (g : gstate) (ops : list gop) : list (gop * fstate * res unit) :=
+    match ops with
+    | [] => []
+    | o :: r => let '(g1, out) := gstep g o in (o, snd g1, out) :: gtrace g1 r
+    end.
+End Global.
+
+(* ---------------------------------------------------------------------------------------------- *)
 (* the concrete field classes used by the correspondence stream *)
 
 Inductive fkind :=
@@ -422,7 +457,7 @@ Definition klookup (k : fkind) : bool :=
 
 (* ---- the stream's case: schema, path of the field under test, its class and default, the process
    environment and the history ---- *)
-Definition ecase := (stree * list str * fkind * pyval * list (str * str) * list eop)%type.
+Definition ecase := (stree * list str * fkind * pyval * list (str * str) * list gop)%type.
 
 Fixpoint stree_ascii (t : stree) : bool :=
   match t with
@@ -454,6 +489,36 @@ Definition o_fstate (s : fstate) : pyval :=
 
 Definition dotted (p : list str) : str := join [46%N] p.
 
+(* is_value_defined of every field, depth first: only the field under test is ever written *)
+Fixpoint o_defined (t : stree) (rest : option (list str)) (flag : bool) : list pyval :=
+  match t with
+  | SLeaf _ => [PBool (match rest with Some [] => flag | _ => false end)]
+  | SNode _ kids =>
+      (fix go (l : list (str * stree)) : list pyval :=
+         match l with
+         | [] => []
+         | (k, c) :: r =>
+             o_defined c (match rest with
+                          | Some (k' :: p) => if str_eqb k k' then Some p else None
+                          | _ => None
+                          end) flag ++ go r
+         end) kids
+  end.
+
+Definition is_fresh_op (o : gop) : bool :=
+  match o with GBuild _ | GOp OBuild | GOp OReset => true | _ => false end.
+
+Definition o_step (s : stree) (path : list str) (x : gop * fstate * res unit) : pyval :=
+  let '(o, st, out) := x in
+  PTuple [o_unit out; o_fstate st;
+          match st with
+          | Some (_, src) =>
+              if is_fresh_op o
+              then PList 0 (o_defined s (Some path) (match src with SLoaded | SAssigned => true | _ => false end))
+              else PNone
+          | None => PNone
+          end].
+
 Definition run_env (c : ecase) : pyval :=
   let '(s, path, k, d, environ, ops) := c in
   if negb (stree_ascii s) then o_str "unmodelled" else
@@ -462,6 +527,6 @@ Definition run_env (c : ecase) : pyval :=
   | None => o_str "unmodelled"
   | Some nm =>
       PTuple [PList 0 (o_names b);
-              PList 0 (map (fun so => PTuple [o_unit (snd so); o_fstate (fst so)])
-                           (etrace (kvalidate k) (kto_py k) d (klookup k) nm environ (dotted path) None ops))]
+              PList 0 (map (o_step s path)
+                           (gtrace (kvalidate k) (kto_py k) d (klookup k) nm (dotted path) (environ, None) ops))]
   end.
